@@ -422,3 +422,15 @@ def search_cases(rng, broken):
             out.append(("digest.chunked", [ad, mode, "6162", "63"]))
             out.append(("digest.reset", [ad, mode, "1", "6162", "63"]))
     return out
+
+
+def sibling_ok(op, args):
+    """the 2048-round evaluations cost minutes each inside Coq: not repeated by the sibling / echo streams"""
+    if op == "kdf.mnemonic":
+        return False
+    if op == "kdf.pbkdf2" and len(args) >= 4:
+        try:
+            return int(args[3]) < 500
+        except ValueError:
+            return True
+    return True
